@@ -254,3 +254,437 @@ Proof.
       apply Permutation_sym. exact Hk2.
     + cbn [orb] in Hspec. rewrite N.mul_0_l in Hspec. cbn in Hspec. discriminate.
 Qed.
+
+(* ------------------------------------------------------------------ *)
+(* elasticqueue_add *)
+
+Lemma equeue_eta q :
+  {| eq_ea := eq_ea q; eq_offset := eq_offset q; eq_len := eq_len q; eq_reclen := eq_reclen q |} = q.
+Proof. destruct q; reflexivity. Qed.
+
+Lemma eq_add_spec q rec o :
+  eq_inv q -> eq_reclen q <= N.of_nat (length rec) ->
+  (eq_offset q + eq_len q + 1) * eq_reclen q < W ->
+  exists ok q' o' ev,
+    eq_add 2 4 2 q rec o = Ok (ok, q', o', ev) /\
+    (ok = true -> refused ev = false /\ eq_inv q' /\ eq_reclen q' = eq_reclen q /\
+                  eq_recs q' = eq_recs q ++ [firstn (N.to_nat (eq_reclen q)) rec] /\
+                  eq_offset q' + eq_len q' = eq_offset q + eq_len q + 1) /\
+    (ok = false -> q' = q /\ refused ev = true) /\
+    (forall rest, heap_run (ea_owned_buf (eq_ea q) ++ rest) ev = Some (ea_owned_buf (eq_ea q') ++ rest)).
+Proof.
+  intros (Hi & Hr & Hsz) Hrec HW. unfold eq_add.
+  assert (Hd : 1 * eq_reclen q < W -> 1 * eq_reclen q <= N.of_nat (length rec)) by lia.
+  destruct (ea_append_spec (eq_ea q) rec 1 (eq_reclen q) o Hi Hr Hd) as (ok & e1 & o1 & ev & H & P).
+  rewrite H. cbn [bind].
+  assert (Hfit : fits (ea_size (eq_ea q)) 1 (eq_reclen q) = true).
+  { unfold fits. apply andb_true_intro. split; apply representable_spec; nia. }
+  destruct P as [(Hf & _) | [(_ & -> & -> & Hrf & Hh) | (_ & -> & Hrf & Hi1 & Habs & Hs1 & _ & _ & Hh)]].
+  - congruence.
+  - eexists false, _, o1, ev. split; [reflexivity|]. split; [discriminate|]. split.
+    + intros _. split; [apply equeue_eta|exact Hrf].
+    + exact Hh.
+  - eexists true, _, o1, ev. split; [reflexivity|]. split; [|split; [discriminate|exact Hh]].
+    intros _. split; [exact Hrf|].
+    assert (Hlen1 : (eq_len q + 1) mod W = eq_len q + 1) by (apply N.mod_small; nia).
+    rewrite Hlen1. split; [|split; [reflexivity|split]].
+    + unfold eq_inv; cbn [eq_ea eq_offset eq_len eq_reclen]. split; [exact Hi1|]. split; [exact Hr|]. lia.
+    + unfold eq_recs; cbn [eq_ea eq_offset eq_len eq_reclen]. rewrite Habs.
+      pose proof (ea_abs_length _ Hi) as Hal.
+      rewrite skipn_app. replace (N.to_nat (eq_offset q * eq_reclen q) - length (ea_abs (eq_ea q)))%nat
+        with 0%nat by nia. cbn [skipn].
+      replace (N.to_nat (eq_len q + 1)) with (S (N.to_nat (eq_len q))) by lia.
+      rewrite chunks_snoc by (rewrite skipn_length; nia).
+      rewrite N.mul_1_l, firstn_firstn, Nat.min_id. reflexivity.
+    + cbn [eq_offset eq_len]. lia.
+Qed.
+
+(* ------------------------------------------------------------------ *)
+(* elasticqueue_delete: cannot fail *)
+
+Lemma chunks_skip_abs rl n k size (buf : list N) :
+  (k + n * rl <= size)%nat -> chunks rl n (skipn k (firstn size buf)) = chunks rl n (skipn k buf).
+Proof. intros H. rewrite skipn_firstn_comm. apply chunks_firstn. lia. Qed.
+
+Lemma eq_delete_spec q o :
+  eq_inv q ->
+  exists q' o' ev,
+    eq_delete 2 4 2 q o = Ok (q', o', ev) /\ eq_inv q' /\ eq_reclen q' = eq_reclen q /\
+    eq_recs q' = tl (eq_recs q) /\ eq_len q' = eq_len q - 1 /\
+    eq_offset q' + eq_len q' <= eq_offset q + eq_len q /\
+    (forall rest, heap_run (ea_owned_buf (eq_ea q) ++ rest) ev = Some (ea_owned_buf (eq_ea q') ++ rest)).
+Proof.
+  intros Hq. pose proof Hq as (Hi & Hr & Hsz). pose proof Hi as (Hs & Hl & Ha).
+  unfold eq_delete. destruct (N.eqb_spec (eq_len q) 0) as [Hz|Hz].
+  - exists q, o, []. split; [reflexivity|]. split; [exact Hq|]. split; [reflexivity|].
+    split; [unfold eq_recs; rewrite Hz; reflexivity|]. split; [lia|]. split; [lia|]. intros rest. reflexivity.
+  - assert (Hoff1 : (eq_offset q + 1) mod W = eq_offset q + 1) by (apply N.mod_small; nia).
+    rewrite Hoff1.
+    set (rl := eq_reclen q) in *. set (off1 := eq_offset q + 1). set (len1 := eq_len q - 1).
+    assert (Hsz1 : ea_size (eq_ea q) = (off1 + len1) * rl) by (subst off1 len1; rewrite Hsz; f_equal; lia).
+    assert (Htl : tl (eq_recs q) =
+                  chunks (N.to_nat rl) (N.to_nat len1) (skipn (N.to_nat (off1 * rl)) (ea_buf (eq_ea q)))).
+    { rewrite eq_recs_buf by exact Hq. fold rl.
+      replace (N.to_nat (eq_len q)) with (S (N.to_nat len1)) by (subst len1; lia).
+      rewrite chunks_tl, skipn_add. do 2 f_equal. subst off1. lia. }
+    destruct (N.ltb_spec len1 off1) as [Hmv|Hnm].
+    + (* move everything to the front *)
+      rewrite eq_move_ok by (try assumption; nia). cbn [bind].
+      set (b := moved _ _ _ _).
+      assert (Hbl : length b = length (ea_buf (eq_ea q))) by (subst b; apply moved_length; nia).
+      set (e1 := {| ea_size := ea_size (eq_ea q); ea_alloc := ea_alloc (eq_ea q); ea_buf := b |}).
+      assert (Hi1 : ea_inv e1) by (unfold ea_inv, e1; cbn [ea_size ea_alloc ea_buf]; rewrite Hbl; auto).
+      destruct (ea_shrink_spec e1 off1 rl o Hi1 Hr) as (e2 & o1 & ev & H & Hi2 & Hs2 & Habs2 & _ & Hh).
+      rewrite H. cbn [bind]. eexists _, o1, ev. split; [reflexivity|].
+      cbn [ea_size e1] in Hs2, Habs2.
+      assert (Hs2' : ea_size e2 = len1 * rl) by (rewrite Hs2, Hsz1; lia).
+      split; [|split; [reflexivity|split; [|split; [reflexivity|split]]]].
+      * unfold eq_inv; cbn [eq_ea eq_offset eq_len eq_reclen]. split; [exact Hi2|]. split; [exact Hr|]. lia.
+      * rewrite Htl. unfold eq_recs; cbn [eq_ea eq_offset eq_len eq_reclen]. fold rl.
+        rewrite N.mul_0_l. cbn [N.to_nat skipn]. rewrite Habs2.
+        replace (ea_size (eq_ea q) - off1 * rl) with (len1 * rl) by lia.
+        unfold ea_abs, e1; cbn [ea_size ea_buf].
+        rewrite firstn_firstn_le by nia. subst b. unfold moved.
+        rewrite firstn_app_exact by (rewrite firstn_length, skipn_length; nia).
+        replace (N.to_nat len1 * N.to_nat rl)%nat with (N.to_nat (len1 * rl)) by lia.
+        rewrite chunks_firstn by lia. do 2 f_equal. lia.
+      * cbn [eq_offset eq_len]. subst len1. lia.
+      * intros rest. specialize (Hh rest).
+        unfold ea_owned_buf, ea_blk, e1 in Hh; cbn [ea_alloc] in Hh. exact Hh.
+    + eexists _, o, []. split; [reflexivity|].
+      split; [|split; [reflexivity|split; [|split; [reflexivity|split]]]].
+      * unfold eq_inv; cbn [eq_ea eq_offset eq_len eq_reclen]. split; [exact Hi|]. split; [exact Hr|].
+        exact Hsz1.
+      * rewrite Htl. rewrite eq_recs_buf.
+        -- cbn [eq_ea eq_offset eq_len eq_reclen]. reflexivity.
+        -- unfold eq_inv; cbn [eq_ea eq_offset eq_len eq_reclen]. auto.
+      * cbn [eq_offset eq_len]. subst off1 len1. lia.
+      * intros rest. reflexivity.
+Qed.
+
+(* ------------------------------------------------------------------ *)
+(* elasticqueue_get and access through its pointer *)
+
+Lemma eq_get_spec q pos :
+  eq_inv q ->
+  (eq_len q <= pos -> eq_get q pos = None) /\
+  (pos < eq_len q ->
+   eq_get q pos = Some ((pos + eq_offset q) * eq_reclen q) /\
+   (pos + eq_offset q) * eq_reclen q + eq_reclen q <= N.of_nat (length (ea_buf (eq_ea q)))).
+Proof.
+  intros ((Hs & Hl & Ha) & Hr & Hsz). unfold eq_get. split; intros Hp.
+  - apply N.leb_le in Hp. rewrite Hp. reflexivity.
+  - destruct (N.leb_spec (eq_len q) pos); [lia|].
+    rewrite (N.mod_small (pos + eq_offset q)) by nia.
+    rewrite ea_get_small by nia. split; [reflexivity|]. nia.
+Qed.
+
+Lemma eq_peek_spec q pos :
+  eq_inv q ->
+  eq_peek q pos = Ok (if pos <? eq_len q then nth_error (eq_recs q) (N.to_nat pos) else None).
+Proof.
+  intros Hq. destruct (eq_get_spec q pos Hq) as (H1 & H2). unfold eq_peek.
+  destruct (N.ltb_spec pos (eq_len q)) as [Hp|Hp].
+  - destruct (H2 Hp) as (-> & Hb). rewrite mem_read_ok by exact Hb. cbn [bind]. do 2 f_equal.
+    rewrite eq_recs_buf by exact Hq. rewrite chunks_nth by lia. rewrite skipn_add. do 3 f_equal. lia.
+  - rewrite (H1 Hp). reflexivity.
+Qed.
+
+Lemma eq_store_spec q pos rec :
+  eq_inv q -> pos < eq_len q -> N.of_nat (length rec) = eq_reclen q ->
+  exists q', eq_store q pos rec = Ok q' /\ eq_inv q' /\ eq_reclen q' = eq_reclen q /\
+             eq_recs q' = set_nth (eq_recs q) (N.to_nat pos) rec /\
+             eq_offset q' = eq_offset q /\ eq_len q' = eq_len q /\
+             ea_alloc (eq_ea q') = ea_alloc (eq_ea q).
+Proof.
+  intros Hq Hp Hrec. pose proof Hq as ((Hs & Hl & Ha) & Hr & Hsz).
+  destruct (eq_get_spec q pos Hq) as (_ & H2). destruct (H2 Hp) as (Hg & Hb).
+  unfold eq_store. rewrite Hg. rewrite mem_write_ok by lia. cbn [bind].
+  eexists. split; [reflexivity|].
+  assert (Hq' : eq_inv {| eq_ea := {| ea_size := ea_size (eq_ea q); ea_alloc := ea_alloc (eq_ea q);
+                                      ea_buf := firstn (N.to_nat ((pos + eq_offset q) * eq_reclen q)) (ea_buf (eq_ea q)) ++
+                                                rec ++ skipn (N.to_nat ((pos + eq_offset q) * eq_reclen q) + length rec)
+                                                             (ea_buf (eq_ea q)) |};
+                           eq_offset := eq_offset q; eq_len := eq_len q; eq_reclen := eq_reclen q |}).
+  { unfold eq_inv, ea_inv; cbn [eq_ea eq_offset eq_len eq_reclen ea_size ea_alloc ea_buf].
+    rewrite write_length by lia. auto. }
+  split; [exact Hq'|]. split; [reflexivity|]. split; [|auto].
+  rewrite (eq_recs_buf _ Hq'). rewrite (eq_recs_buf _ Hq).
+  cbn [eq_ea eq_offset eq_len eq_reclen ea_buf].
+  set (rl := eq_reclen q) in *. set (off := eq_offset q) in *. set (buf := ea_buf (eq_ea q)) in *.
+  rewrite <- chunks_set; try lia.
+  2:{ rewrite skipn_length. nia. }
+  f_equal.
+  rewrite skipn_app. rewrite firstn_length.
+  replace (N.to_nat (off * rl) - Nat.min (N.to_nat ((pos + off) * rl)) (length buf))%nat with 0%nat by nia.
+  cbn [skipn]. rewrite skipn_firstn_comm. rewrite skipn_add.
+  f_equal; [f_equal; nia|]. f_equal. f_equal. nia.
+Qed.
+
+(* ------------------------------------------------------------------ *)
+(* one operation of a client program *)
+
+(* all records of the program have the length rl the queue was created with *)
+Definition eq_op_ok (rl : N) (op : eq_op) : Prop :=
+  match op with
+  | QInit r => r = rl /\ 0 < rl
+  | QAdd rec => rl <= N.of_nat (length rec)
+  | QSet _ rec => N.of_nat (length rec) = rl
+  | _ => True
+  end.
+
+Definition qst_inv (rl : N) (st : option equeue) : Prop :=
+  match st with Some q => eq_inv q /\ eq_reclen q = rl | None => True end.
+Definition qst_abs (st : option equeue) : option fifo := option_map eq_abs st.
+Definition q_used (st : option equeue) : N :=
+  match st with Some q => eq_offset q + eq_len q | None => 0 end.
+Definition qst_owned (ssz qsz : N) (st : option equeue) : list N :=
+  match st with Some q => eq_owned ssz qsz q | None => [] end.
+
+Definition qstep_post (ssz qsz rl : N) (op : eq_op) (st : option equeue) (x : eq_out)
+           (st' : option equeue) (ev : list aev) : Prop :=
+  qst_inv rl st' /\
+  eq_spec_step op (qst_abs st) (refused ev) = (x, qst_abs st') /\
+  (refused ev = true -> op <> QDelete -> st' = st /\ x = YRc false) /\
+  q_used st' <= q_used st + 1 /\
+  (forall rest, exists h, heap_run (qst_owned ssz qsz st ++ rest) ev = Some h /\
+                          Permutation h (qst_owned ssz qsz st' ++ rest)).
+
+Lemma heap_eq_owned ssz qsz q q' ev rest :
+  (forall r, heap_run (ea_owned_buf (eq_ea q) ++ r) ev = Some (ea_owned_buf (eq_ea q') ++ r)) ->
+  heap_run (eq_owned ssz qsz q ++ rest) ev = Some (eq_owned ssz qsz q' ++ rest).
+Proof. intros H. unfold eq_owned. rewrite !ea_owned_split, <- !app_assoc. apply H. Qed.
+
+Ltac qpost5 :=
+  unfold qstep_post;
+  cbn [qst_inv qst_abs option_map eq_spec_step q_used qst_owned app];
+  refine (conj _ (conj _ (conj _ (conj _ _)))).
+
+Theorem eq_step_ok ssz qsz rl op st o :
+  qst_inv rl st -> eq_op_ok rl op -> (q_used st + 1) * rl < W ->
+  exists x st' o' ev,
+    eq_step 2 4 2 ssz qsz op st o = Ok (x, st', o', ev) /\ qstep_post ssz qsz rl op st x st' ev.
+Proof.
+  intros Hi Hok HW. destruct st as [q|].
+  - destruct Hi as (Hq & Hrl). cbn [q_used] in HW. destruct op; cbn [eq_op_ok] in Hok; cbn [eq_step].
+    + (* init on an existing queue: skipped *)
+      eexists _, _, _, _. split; [reflexivity|]. qpost5.
+      * auto.
+      * reflexivity.
+      * discriminate.
+      * lia.
+      * intros rest. cbn [heap_run]. perm_refl.
+    + (* add *)
+      rewrite <- Hrl in Hok, HW.
+      destruct (eq_add_spec q rec o Hq Hok HW) as (ok & q1 & o1 & ev & H & P1 & P2 & P3).
+      rewrite H. cbn [bind]. eexists _, _, _, _. split; [reflexivity|]. destruct ok.
+      * destruct (P1 eq_refl) as (Hrf & Hq1 & Hr1 & Hrecs & Hu). qpost5.
+        -- split; [exact Hq1|congruence].
+        -- rewrite Hrf. unfold eq_abs. rewrite Hr1, Hrecs. reflexivity.
+        -- rewrite Hrf. discriminate.
+        -- lia.
+        -- intros rest. rewrite (heap_eq_owned ssz qsz q q1) by exact P3. perm_refl.
+      * destruct (P2 eq_refl) as (-> & Hrf). qpost5.
+        -- auto.
+        -- rewrite Hrf. reflexivity.
+        -- intros _ _. split; reflexivity.
+        -- lia.
+        -- intros rest. rewrite (heap_eq_owned ssz qsz q q) by exact P3. perm_refl.
+    + (* delete *)
+      destruct (eq_delete_spec q o Hq) as (q1 & o1 & ev & H & Hq1 & Hr1 & Hrecs & _ & Hu & Hh).
+      rewrite H. cbn [bind]. eexists _, _, _, _. split; [reflexivity|]. qpost5.
+      * split; [exact Hq1|congruence].
+      * unfold eq_abs. rewrite Hr1, Hrecs. reflexivity.
+      * intros _ Hne. congruence.
+      * lia.
+      * intros rest. rewrite (heap_eq_owned ssz qsz q q1) by exact Hh. perm_refl.
+    + (* getlen *)
+      eexists _, _, _, _. split; [reflexivity|]. qpost5.
+      * auto.
+      * unfold eq_abs, eq_getlen. rewrite eq_recs_length, N2Nat.id. reflexivity.
+      * discriminate.
+      * lia.
+      * intros rest. cbn [heap_run]. perm_refl.
+    + (* get *)
+      rewrite eq_peek_spec by exact Hq. cbn [bind].
+      eexists _, _, _, _. split; [reflexivity|]. qpost5.
+      * auto.
+      * unfold eq_abs. rewrite eq_recs_length, N2Nat.id. reflexivity.
+      * discriminate.
+      * lia.
+      * intros rest. cbn [heap_run]. perm_refl.
+    + (* store through get *)
+      destruct (eq_get_spec q pos Hq) as (H1 & H2).
+      destruct (N.ltb_spec pos (eq_len q)) as [Hp|Hp].
+      * destruct (H2 Hp) as (Hg & _). rewrite Hg.
+        rewrite <- Hrl in Hok.
+        destruct (eq_store_spec q pos rec Hq Hp Hok) as (q1 & Hst & Hq1 & Hr1 & Hrecs & Ho1 & Hl1 & Ha1).
+        rewrite Hst. cbn [bind]. eexists _, _, _, _. split; [reflexivity|]. qpost5.
+        -- split; [exact Hq1|congruence].
+        -- unfold eq_abs. rewrite eq_recs_length, N2Nat.id.
+           apply N.ltb_lt in Hp. rewrite Hp. rewrite Hr1, Hrecs. reflexivity.
+        -- discriminate.
+        -- lia.
+        -- intros rest. cbn [heap_run]. eexists; split; [reflexivity|].
+           unfold eq_owned. rewrite (owned_same_alloc ssz _ _ Ha1). apply Permutation_refl.
+      * rewrite (H1 Hp). eexists _, _, _, _. split; [reflexivity|]. qpost5.
+        -- auto.
+        -- unfold eq_abs. rewrite eq_recs_length, N2Nat.id.
+           apply N.ltb_ge in Hp. rewrite Hp. reflexivity.
+        -- discriminate.
+        -- lia.
+        -- intros rest. cbn [heap_run]. perm_refl.
+    + (* free *)
+      eexists _, _, _, _. split; [reflexivity|].
+      assert (Hrf : refused (eq_free_ev ssz qsz q) = false).
+      { unfold eq_free_ev, ea_free_ev, ea_free_buf_ev. destruct (ea_blk (eq_ea q)); reflexivity. }
+      qpost5.
+      * exact I.
+      * reflexivity.
+      * rewrite Hrf. discriminate.
+      * lia.
+      * intros rest. unfold eq_free_ev, ea_free_ev, eq_owned. rewrite !heap_run_app.
+        rewrite ea_owned_split, <- !app_assoc. rewrite heap_free_buf.
+        cbn [app heap_run heap_apply]. rewrite remove1_head.
+        cbn [app heap_run heap_apply]. rewrite remove1_head. perm_refl.
+  - destruct op; cbn [eq_op_ok] in Hok; cbn [eq_step];
+      try (eexists _, _, _, _; (split; [reflexivity|]); qpost5;
+           [exact I | reflexivity | discriminate | lia | intros rest; cbn [heap_run]; perm_refl]).
+    (* init *)
+    destruct Hok as (-> & Hr).
+    destruct (eq_init_spec ssz qsz rl o Hr) as (r & o1 & ev & H & P).
+    rewrite H. cbn [bind]. eexists _, _, _, _. split; [reflexivity|]. destruct r as [q|].
+    + destruct P as (Hrf & Hq & Hr1 & Hrecs & Hu & Hh). qpost5.
+      * auto.
+      * rewrite Hrf. unfold eq_abs. rewrite Hr1, Hrecs. reflexivity.
+      * rewrite Hrf. discriminate.
+      * lia.
+      * exact Hh.
+    + destruct P as (Hrf & Hh). qpost5.
+      * exact I.
+      * rewrite Hrf. reflexivity.
+      * intros _ _. split; reflexivity.
+      * lia.
+      * exact Hh.
+Qed.
+
+(* ------------------------------------------------------------------ *)
+(* whole programs *)
+
+Definition qtr_out (t : eq_out * option equeue * list aev) : eq_out := fst (fst t).
+Definition qtr_st (t : eq_out * option equeue * list aev) : option equeue := snd (fst t).
+Definition qtr_ev (t : eq_out * option equeue * list aev) : list aev := snd t.
+Definition qtr_obs (tr : list (eq_out * option equeue * list aev)) : list (eq_out * option fifo) :=
+  map (fun t => (qtr_out t, qst_abs (qtr_st t))) tr.
+Definition qtr_flags (tr : list (eq_out * option equeue * list aev)) : list bool :=
+  map (fun t => refused (qtr_ev t)) tr.
+
+(* C12 M3: for every program (records of length rl, short enough that the byte count stays
+   below 2^64) and every oracle: no Fault / AssertFail, and the client sees an ideal FIFO *)
+Theorem eq_run_refines ssz qsz rl ops : forall st o,
+  qst_inv rl st -> Forall (eq_op_ok rl) ops ->
+  (q_used st + N.of_nat (length ops)) * rl < W ->
+  exists tr,
+    eq_run 2 4 2 ssz qsz ops st o = Ok tr /\
+    Forall (fun t => qst_inv rl (qtr_st t)) tr /\
+    qtr_obs tr = eq_spec_run ops (qst_abs st) (qtr_flags tr).
+Proof.
+  induction ops as [|op ops IH]; intros st o Hi Hok HW.
+  - exists []. repeat split. constructor.
+  - inversion Hok as [|? ? Hop Hops]; subst.
+    cbn [length] in HW.
+    assert (HW1 : (q_used st + 1) * rl < W) by nia.
+    destruct (eq_step_ok ssz qsz rl op st o Hi Hop HW1) as (x & st1 & o1 & ev & Hs & Hi1 & Hspec & _ & Hu & _).
+    assert (HW2 : (q_used st1 + N.of_nat (length ops)) * rl < W) by nia.
+    destruct (IH st1 o1 Hi1 Hops HW2) as (tr & Hr & Hf & Hobs).
+    cbn [eq_run]. rewrite Hs. cbn [bind]. rewrite Hr. cbn [bind].
+    eexists. split; [reflexivity|]. split.
+    + constructor; [exact Hi1|exact Hf].
+    + cbn [qtr_obs qtr_flags map eq_spec_run tl]. unfold qtr_out, qtr_st, qtr_ev; cbn [fst snd].
+      rewrite Hspec. f_equal. exact Hobs.
+Qed.
+
+(* C14 M1 for the queue: init / add with a refused request report failure, nothing changes *)
+Theorem eq_fail_unchanged ssz qsz rl op st o x st' o' ev :
+  qst_inv rl st -> eq_op_ok rl op -> (q_used st + 1) * rl < W ->
+  eq_step 2 4 2 ssz qsz op st o = Ok (x, st', o', ev) ->
+  refused ev = true -> op <> QDelete ->
+  st' = st /\ x = YRc false /\ qst_inv rl st'.
+Proof.
+  intros Hi Hok HW H Hrf Hnd.
+  destruct (eq_step_ok ssz qsz rl op st o Hi Hok HW) as (x1 & st1 & o1 & ev1 & Hs & Hi1 & _ & Hfail & _).
+  rewrite H in Hs. inversion Hs; subst. destruct (Hfail Hrf Hnd). auto.
+Qed.
+
+(* C14 M2 for the queue: delete (and free) succeed whatever the allocator answers *)
+Theorem eq_delete_infallible ssz qsz rl q o :
+  eq_inv q -> eq_reclen q = rl -> (eq_offset q + eq_len q + 1) * rl < W ->
+  exists q' o' ev,
+    eq_step 2 4 2 ssz qsz QDelete (Some q) o = Ok (YUnit, Some q', o', ev) /\
+    eq_inv q' /\ eq_abs q' = (rl, tl (eq_recs q)).
+Proof.
+  intros Hq Hr HW.
+  destruct (eq_step_ok ssz qsz rl QDelete (Some q) o (conj Hq Hr) I HW) as (x & st1 & o1 & ev & Hs & Hi1 & Hspec & _).
+  cbn [eq_spec_step qst_abs option_map eq_abs] in Hspec.
+  destruct st1 as [q1|]; cbn [option_map] in Hspec; [|discriminate].
+  injection Hspec as Hx Habs. subst x. destruct Hi1 as (Hq1 & _).
+  eexists _, _, _. split; [exact Hs|]. split; [exact Hq1|]. unfold eq_abs. rewrite <- Habs, Hr. f_equal. symmetry. assumption.
+Qed.
+
+(* C14 M3 for one queue operation *)
+Theorem eq_step_no_leak ssz qsz rl op st o x st' o' ev rest :
+  qst_inv rl st -> eq_op_ok rl op -> (q_used st + 1) * rl < W ->
+  eq_step 2 4 2 ssz qsz op st o = Ok (x, st', o', ev) ->
+  exists h, heap_run (qst_owned ssz qsz st ++ rest) ev = Some h /\
+            Permutation h (qst_owned ssz qsz st' ++ rest).
+Proof.
+  intros Hi Hok HW H.
+  destruct (eq_step_ok ssz qsz rl op st o Hi Hok HW) as (x1 & st1 & o1 & ev1 & Hs & _ & _ & _ & _ & Hh).
+  rewrite H in Hs. inversion Hs; subst. apply Hh.
+Qed.
+
+(* everything a client can read through elasticqueue_get is the record list *)
+Lemma eq_view_from_spec q : eq_inv q -> forall n pos,
+  (N.to_nat pos + n = N.to_nat (eq_len q))%nat ->
+  eq_view_from q pos n = Ok (skipn (N.to_nat pos) (eq_recs q)).
+Proof.
+  intros Hq. induction n as [|n IH]; intros pos Hn; cbn [eq_view_from].
+  - rewrite skipn_all2 by (rewrite eq_recs_length; lia). reflexivity.
+  - rewrite eq_peek_spec by exact Hq. cbn [bind].
+    destruct (N.ltb_spec pos (eq_len q)) as [Hp|Hp]; [|lia].
+    destruct (nth_error (eq_recs q) (N.to_nat pos)) as [r|] eqn:E.
+    + rewrite IH by lia. cbn [bind]. f_equal.
+      replace (N.to_nat (pos + 1)) with (S (N.to_nat pos)) by lia.
+      clear -E. revert E. generalize (N.to_nat pos) as k. generalize (eq_recs q) as l.
+      induction l as [|x l IHl]; intros k E; destruct k; cbn in *; try discriminate.
+      * inversion E; reflexivity.
+      * apply IHl. exact E.
+    + apply nth_error_None in E. rewrite eq_recs_length in E. lia.
+Qed.
+
+Theorem eq_view_spec q : eq_inv q -> eq_view q = Ok (eq_recs q).
+Proof. intros Hq. unfold eq_view, eq_getlen. rewrite (eq_view_from_spec q Hq) by (cbn; lia). reflexivity. Qed.
+
+(* ------------------------------------------------------------------ *)
+(* examples *)
+
+Definition qex_prog : list eq_op :=
+  [QInit 2; QAdd [1; 2]; QAdd [3; 4]; QAdd [5; 6]; QDelete; QGet 0; QDelete; QSet 0 [7; 8];
+   QGet 0; QGet 1; QDelete; QDelete; QGetlen; QFree].
+
+Example qex_prog_ok : Forall (eq_op_ok 2) qex_prog.
+Proof. unfold qex_prog. repeat constructor; cbn; lia. Qed.
+
+Example qex_prog_runs :
+  exists tr, eq_run 2 4 2 24 32 qex_prog None all_grant = Ok tr /\
+             map qtr_out tr =
+             [YRc true; YRc true; YRc true; YRc true; YUnit; YRec (Some [3; 4]); YUnit; YUnit;
+              YRec (Some [7; 8]); YRec None; YUnit; YUnit; YSize 0; YUnit].
+Proof. eexists. split; vm_compute; reflexivity. Qed.
+
+(* the second add is refused: it fails, the queue still holds exactly the first record *)
+Example qex_refused :
+  exists tr, eq_run 2 4 2 24 32 [QInit 1; QAdd [9]; QAdd [8]; QGetlen; QGet 0] None
+                    {| ans := [true; true; true; false]; dflt := true |} = Ok tr /\
+             map qtr_out tr = [YRc true; YRc true; YRc false; YSize 1; YRec (Some [9])].
+Proof. eexists. split; vm_compute; reflexivity. Qed.
